@@ -21,14 +21,18 @@ from harness.common import Failure, lean_run
 from harness.c05 import norm_value
 
 PROP_MODULES = ["ArmiVerif.Props.C04"]
-PARTIAL = ("theorems cover the layout / locator / index / grid-table logic only; parameter value encoding is C05; "
+PARTIAL = ("theorems cover the layout / locator / index / grid-table logic, child order (load(save t) = t sorted; = t iff "
+           "sorted: F12 exactly) and, composed with C05's model, that every object reads back its own parameter value "
+           "(save_load_param_own); "
            "h5py, blueprint re-construction of components, material lookup, grids' reduce() and the child sort "
            "key are parameters (checked by the whole-stack oracle only). Reachable states: arbitrary values are "
            "assigned only to FREE parameters (not recomputed on load, not identities, not settings-owned); derived "
            "ones change through the API only. Generated blueprints are replaced by the five shipped inputs "
            "(hex third core with pin lattices and SFP, smallest hex, Cartesian c5g7, theta-RZ godiva, axial-expansion fixture)")
 ASSUMPTIONS = [
-    "children are flattened in the order sorted(list(comp)) returns (ArmiObject.__lt__ by locator); the model takes that order as given",
+    "child order: ArmiObject.__lt__ = lexicographic (k, j, i) of the complete indices is modelled (armiLt) and compared with "
+    "sorted(children) for every non-component child list; Component.__lt__ (bounding circle) is a parameter: the theorems hold "
+    "for any asymmetric order, the flatten correspondence takes sorted(list(comp)) as given",
     "equal grid keys <=> equal (grid class, reduce()) tuples (Python tuple equality/hash)",
     "index components survive float64 storage and int() (|i| < 2^53)",
 ]
@@ -487,6 +491,47 @@ def mutate(rng, o, r, nobj, ops):
             ops.append(["setNumberDensities", i, [[k, v] for k, v in new.items()], variant])
         except Exception:  # noqa: BLE001
             continue
+    # class-aware: a class whose instances ALL hold dicts of one length (e.g. every DerivedShape coolant {NA23}); one
+    # instance that is NOT the first gets the same number of DIFFERENT keys, so the per-class column is
+    # "equal lengths, different keys". If no class is in that situation, make one so (truncate to a common length).
+    def ndlen(c):
+        return len(c.getNumberDensities())
+
+    equal = [g for g in multi if len({ndlen(c) for _, c in g[:3000]}) == 1 and ndlen(g[0][1]) > 0]
+    if equal and rng.random() < 0.8:
+        group = rng.choice(equal)
+    else:
+        cands = [g for g in multi if min(ndlen(c) for _, c in g[:3000]) > 0 and len(g) <= 400]
+        group = rng.choice(cands) if cands else None
+        if group is not None:
+            L = min(ndlen(c) for _, c in group)
+            for i, c in group:
+                nd = c.getNumberDensities()
+                if len(nd) != L:
+                    new = dict(list(nd.items())[:L])
+                    try:
+                        c.setNumberDensities(new)
+                        ops.append(["setNumberDensities", i, [[k, v] for k, v in new.items()], "truncate-to-common-length"])
+                    except Exception:  # noqa: BLE001
+                        pass
+    if group is not None and len(group) >= 2:
+        i, c = rng.choice(group[1:]) if rng.random() < 0.7 else group[-1]
+        nd = c.getNumberDensities()
+        keys = list(nd)
+        others = [n for n in pool if n not in nd] or pool
+        if rng.random() < 0.5 or len(keys) == 1:
+            new = {others[(j * 3 + i) % len(others)]: 2.5e-5 * (j + 1) for j in range(len(keys))}
+            variant = "equal-length-class-disjoint-keys"
+        else:
+            new = {keys[0]: nd[keys[0]]}
+            new.update({others[(j * 3 + i) % len(others)]: 2.5e-5 * (j + 1) for j in range(len(keys) - 1)})
+            variant = "equal-length-class-one-shared-key"
+        if len(new) == len(keys):
+            try:
+                c.setNumberDensities(new)
+                ops.append(["setNumberDensities", i, [[k, v] for k, v in new.items()], variant])
+            except Exception:  # noqa: BLE001
+                pass
     assems = [(i, a) for i, a in enumerate(objs) if isinstance(a, Assembly) and a.parent is r.core]
     for i, a in rng.sample(assems, min(1, len(assems))):
         bl = [b for b in a]
@@ -746,7 +791,36 @@ def layout_line(L, w):
         "T"])
 
 
+def sort_requests(ctx, fixture, root, req, impl, cases):
+    """child order: the model's stable sort by (k, j, i) of the complete indices vs Python's sorted(children)
+    (ArmiObject.__lt__) for every composite whose children are not Components and all carry index/coordinate locators"""
+    from armi.reactor import grids
+    from armi.reactor.components import Component
+
+    n = 0
+    for c in [root] + root.getChildren(deep=True):
+        kids = list(c)
+        if len(kids) < 2 or any(isinstance(k, Component) for k in kids):
+            continue
+        if any(k.spatialLocator is None or isinstance(k.spatialLocator, grids.MultiIndexLocation) for k in kids):
+            continue
+        try:
+            keys = [tuple(int(v) for v in reversed(k.spatialLocator.getCompleteIndices())) for k in kids]
+            order = sorted(kids)
+        except Exception:  # noqa: BLE001 - not comparable (different grids): the real layout would refuse too
+            continue
+        pos = {id(k): i for i, k in enumerate(kids)}
+        req.append("sortidx [" + ",".join("[" + ",".join(map(str, k)) + "]" for k in keys) + "]")
+        impl.append("[" + ",".join(str(pos[id(k)]) for k in order) + "]")
+        cases.append({"fixture": fixture, "op": "sortidx", "keys": keys[:50]})
+        n += 1
+        if order != kids:
+            ctx.count("child lists found out of sorted order (F12 situation)")
+    ctx.count("child lists compared with the model's sort", n)
+
+
 def layout_correspondence(ctx, fixture, r, fn, r2, req, impl, cases):
+    sort_requests(ctx, fixture, r, req, impl, cases)
     """model flatten vs real Layout(comp=r); model compose/unpack vs the file's layout datasets and the loaded tree"""
     import h5py
     from armi.bookkeeping.db import layout as lay
@@ -874,6 +948,7 @@ def synthetic_layouts(ctx, req, impl, cases):
         w = Wire()
         tree = w.tree(root)
         L = lay.Layout((lay.DB_MAJOR, lay.DB_MINOR), comp=root)
+        sort_requests(ctx, "synthetic", root, req, impl, cases)
         req.append("flatten " + tree); impl.append(layout_line(L, w)); cases.append({"fixture": "synthetic", "op": "flatten", "tree": tree[:2000]})
         pairs = "[" + ",".join(f"[{int(s)},{int(n)}]" for s, n in zip(L.serialNum, L.numChildren)) + "]"
         anc = lay.Layout.computeAncestors(list(L.serialNum), list(L.numChildren))
@@ -960,6 +1035,7 @@ def excluded_points(ctx, req, impl, cases):
         from armi.physics.fuelCycle import fuelHandlers
         fuelHandlers.FuelHandler(o).swapAssemblies(objs[ai[0]], objs[ai[-1]])
         ops = [["swapAssemblies", ai[0], ai[-1], None]]
+        sort_requests(ctx, "c5g7", r, req, impl, cases)
         roundtrip_checks(ctx, "c5g7", o, r, ops, "f12", deep=False)
     ctx.count("excluded point: assemblies swapped, children no longer in locator order (F12)")
     # a parameter without default assigned on some but not all objects of its class
